@@ -86,11 +86,11 @@ Section WithH.
   Variable H : hashid -> bytes -> bytes -> bytes.
 
   Lemma read_tamper_needs_collision_lemma :
-    forall k rmac ctx multi w1 now1 m1 owner1 rd1 w2 now2 m2 owner2 rd2,
+    forall origin1 origin2 k rmac ctx multi w1 now1 m1 owner1 rd1 w2 now2 m2 owner2 rd2,
       (ctx = None \/ multi = false) ->
       all_bytes w1 = true -> all_bytes w2 = true ->
-      read H w1 (KR_Key k) rmac ctx multi now1 = Ok m1 -> m_tsig m1 = Some (owner1, rd1) ->
-      read H w2 (KR_Key k) rmac ctx multi now2 = Ok m2 -> m_tsig m2 = Some (owner2, rd2) ->
+      read_gen H origin1 w1 (KR_Key k) rmac ctx multi now1 = Ok m1 -> m_tsig m1 = Some (owner1, rd1) ->
+      read_gen H origin2 w2 (KR_Key k) rmac ctx multi now2 = Ok m2 -> m_tsig m2 = Some (owner2, rd2) ->
       t_mac rd1 = t_mac rd2 ->
       exists body1 start1 body2 start2 ad1 ad2 h sz,
         m_recs m1 = body1 ++ [(3, TSIG, ANY, start1)] /\ m_recs m2 = body2 ++ [(3, TSIG, ANY, start2)] /\
